@@ -120,7 +120,7 @@ PROPS['C07'] = {
 }
 
 PROPS['C10'] = {
-    'units': ['rename', 'lists'],
+    'units': ['rename', 'lists', 'unify', 'functions'],
     'functions': ['unifiable.rs::Unifiable::recreate_variables', 'unifiable.rs::recreate_vars_terms', 'unifiable.rs::recreate_vars_goals',
                   'goal.rs::Goal::recreate_variables', 'operator.rs::Operator::recreate_variables',
                   'built_in_predicates.rs::BuiltInPredicate::recreate_variables', 'built_in_predicates.rs::BuiltInPredicate::new',
@@ -235,7 +235,7 @@ PROPS['C05'] = {
     ],
 }
 PROPS['C01'] = {
-    'units': ['solver', 'print'],
+    'units': ['solver', 'print', 'unify', 'functions'],
     'functions': SOLVER_FNS + ['solutions.rs::format_solution'],
     'oracles': {'*': 'c01_prog', '#solve_all': 'c01_solve_all'},
     'bounded': [('c01_prog', 'the equivalence itself, BOUNDED: 3000 random stratified programs per seed (facts; rules of three levels calling lower levels only; conjunction, disjunction in one level of parentheses, unification, comparisons, count / append, '
@@ -247,6 +247,8 @@ PROPS['C01'] = {
         'the body of the chosen clause runs under the bindings unification of its head with the goal gave (#body_under_unifier); the goals after the first goal of a conjunction run under the bindings of the first goal\'s answer (#conjunction_threads_bindings); '
         'the later alternatives of a disjunction run under the bindings the disjunction was entered with and are exactly the remaining operands (#alternatives_share_bindings) - substitution sets are immutable values (Rc<Vec>, never written after creation), '
         'so nothing an abandoned alternative has bound can appear in a later answer; an exhausted node yields nothing more (C05); a flagged node yields nothing more (C02)',
+        'PROVED on unify / unify_sfunction (#no_new_ids): unification introduces no variable id of its own - whatever bounds the ids of the two terms and of the prior bindings bounds those of the result; '
+        'the clause loop rewinds the id counter only after the head of the clause just fetched has failed to unify (#ids_released_only_after_failed_unification). That ids given back are then referenced by nothing is argued from these two, not proved (it needs the counter and the term invariants of C06 carried through the search)',
         'NOT PROVED, bounded only: that the answers are exactly those of depth-first, left-to-right, clause-order resolution, in that order and multiplicity - a whole-history equivalence with a reference semantics, modulo renaming of unbound variables '
         '(clause renaming draws ids from a global counter that the search also rewinds); the random-program comparison stands in for it, labelled bounded',
         'format_solution is PROVED (unit print): `$Var = value` for each variable among the query\'s arguments, in argument order, separated by ", ", the value being the corresponding argument of the result (#solution_text) - under the precondition that the result has the arity of the query (replace_variables keeps the shape; that precondition is not carried through solve / solve_all, where format_solution is abstract); Display of the value is uninterpreted',
